@@ -46,6 +46,25 @@ func init() {
 			return ok && (vs.Timestamp != nil || vs.StartOrEnd != 0) && vs.OriginalOffset != 0
 		})
 	})
+	// KF-param-at: promql.PreprocessExpr never visits aggregation parameters, so a
+	// selector with a literal @ inside a parameter is not wrapped as step invariant; in a
+	// range query it is then evaluated at every step with the offset (start - t) that
+	// was computed for the first step.
+	Register("agg-param-selector-with-at", func(c *core.Case, expr parser.Expr) bool {
+		if c.Step == 0 || c.End <= c.Start {
+			return false
+		}
+		return anyNode(expr, func(n parser.Node, _ []parser.Node) bool {
+			agg, ok := n.(*parser.AggregateExpr)
+			if !ok || agg.Param == nil {
+				return false
+			}
+			return anyNode(agg.Param, func(m parser.Node, _ []parser.Node) bool {
+				vs, ok := m.(*parser.VectorSelector)
+				return ok && vs.Timestamp != nil
+			})
+		})
+	})
 	// KF-include: group_left/group_right with a non-empty include list takes the
 	// included labels from the first "one"-side series of the match group, not from
 	// the one that has a sample at the step.
